@@ -9,7 +9,7 @@
             below 2^53 every sum is exact, so Z is faithful there. *)
 From Coq Require Import List Arith ZArith Bool.
 Import ListNotations.
-Open Scope Z_scope.
+Local Open Scope Z_scope.
 
 Definition factor := (nat * Z)%type.          (* factor code, cost *)
 Definition layerw := list factor.
